@@ -378,6 +378,12 @@ func Scratch(prefix string) string {
 	if st, err := os.Stat(base); err != nil || !st.IsDir() {
 		base = os.TempDir()
 	}
+	// processes that are killed rather than left to finish (fuzz workers) get a parent-owned scratch area
+	if b := os.Getenv("VERIF_SCRATCH_BASE"); b != "" {
+		if st, err := os.Stat(b); err == nil && st.IsDir() {
+			base = b
+		}
+	}
 	d, err := os.MkdirTemp(base, "verif-"+prefix+"-")
 	if err != nil {
 		d, err = os.MkdirTemp("", "verif-"+prefix+"-")
